@@ -413,7 +413,9 @@ def integrate_step():
     qs, qc = A.arr('qs', (nv,)), A.arr('qc', (nv,))
     dmp = A.arr('d', (nv,))
     dt = A.var('dt')
-    sys2 = sys.replace(dof=sys.dof.replace(damping=Sym(dmp)), opt=sys.opt.replace(timestep=Sym(dt)))
+    # every other per-dof constant of the model is symbolic too (armature is already inside mass_mx: it must not enter the integrator a second time)
+    arm, stf = A.arr('arm', (nv,)), A.arr('stf', (nv,))
+    sys2 = sys.replace(dof=sys.dof.replace(damping=Sym(dmp), armature=Sym(arm), stiffness=Sym(stf)), opt=sys.opt.replace(timestep=Sym(dt)))
     Xsol = A.arr('X', (nv, nv))
     seen = {}
 
@@ -469,7 +471,7 @@ def integrate_free():
     got = integrator._integrate_q_free(sys2, q, qd)
     # reference: MuJoCo mj_integratePos for a free joint, with the 1e-8 guard stated explicitly
     w = qd[3:6]
-    wn = jp.sqrt(jp.sum(w * w)) + 1e-8
+    wn = math.safe_norm(w) + 1e-8          # the same real helper (cut on both sides; its contract is C09/safe_norm/contract_*: the norm, 0 inside the 1e-8 cube)
     u = w / wn
     a = dt * wn
     # quat_rot_axis = (cos a/2, u sin a/2) and quat_mul = Hamilton product are verified contracts (C09/quat_rot_axis/unit_and_def, C09/quat_mul/hamilton)
@@ -477,8 +479,8 @@ def integrate_free():
     r = r / jp.sqrt(jp.sum(r * r))
     return got, jp.concatenate([q[0:3] + dt * qd[0:3], r])
   return law('C02/integrator._integrate_q_free/step', 'brax.generalized.integrator:_integrate_q_free', "free joint: pos' = pos + dt v; rot' is the normalised rot (x) (cos(a/2), u sin(a/2)) with "
-             'u = w/(|w|+1e-8), a = dt(|w|+1e-8) -- MuJoCo mj_integratePos up to the stated 1e-8 guard (sqrt / sin / cos shared with the spec)', fn, {'q': (7,), 'qd': (6,), 'dt': ()},
-             timeout=100, budget=300, validate=False)
+             'u = w/(|w|+1e-8), a = dt(|w|+1e-8), |w| = safe_norm(w) -- MuJoCo mj_integratePos up to the stated 1e-8 guards (safe_norm / sqrt / sin / cos shared with the spec)', fn, {'q': (7,), 'qd': (6,), 'dt': ()},
+             timeout=100, budget=300, validate=False, cut_targets=('brax.math:safe_norm',), cuts={'brax.math:safe_norm': cuts.uf_handler('safe_norm')})
 
 
 def bounded(tier):
